@@ -2048,6 +2048,9 @@ func strContains(s, sub string) bool { return strings.Contains(s, sub) }
 //@ func changeTimelineTimescale
 //@   wiring
 //@   keep nil: *s.T
+//@   requires inSTL != nil
+//@   store t += requires pastTheWholeRun: s.T != nil ==> t == *s.T + s.D * uint64(s.R+1)
+//@   loop 1 invariant inputUntouched: 0 <= rangeidx && inSTL.S == old(inSTL.S) && (fresh(o.S) || o.S == nil) && forall i in [0, len(inSTL.S)) :: inSTL.S[i] == old(inSTL.S[i]) && !fresh(inSTL.S[i]) && *inSTL.S[i] == old(*inSTL.S[i]) && !fresh(inSTL.S[i].T) && *inSTL.S[i].T == old(*inSTL.S[i].T)
 
 // adjustAdaptationSetForSegmentNumber: the plain $Number$ template has no timeline, the configured
 // start number, and - when the VoD MPD gives no duration - the average segment duration of the first
